@@ -1,8 +1,68 @@
-/- line-protocol engine `fl` (stub: answers bad-op until the engine is built) -/
+/- line-protocol engine `fl` (C13): the float-site model instantiated with Lean's `Float` (IEEE binary64).
+
+  fl sites                      -> `idx|file|line|fn|ok;…`   (the generated table; ok = not unguarded)
+  fl op <name> <hex16>…         -> `(float <hex16>)` | `err` | `stuck`
+     lit a | neg a | add a b | sub a b | mul a b | div a b | negneg a | pairneg a b
+-/
+import XrayModel.FloatSites
+import Generated.FloatSites
+open XrayModel.FloatSites
 namespace XrayDriver
 
+def flDom : FloatDom := { F := Float, J := Float, isFin := Float.isFinite, neg := Float.neg, ofJson := id }
+
+def flHexVal (c : Char) : Option Nat :=
+  if '0' ≤ c ∧ c ≤ '9' then some (c.toNat - '0'.toNat)
+  else if 'a' ≤ c ∧ c ≤ 'f' then some (c.toNat - 'a'.toNat + 10)
+  else none
+
+def flParse (s : String) : Option Float :=
+  if s.length != 16 then none else
+  (s.toList.foldlM (fun (acc : Nat) c => (flHexVal c).map (fun d => acc * 16 + d)) 0).map
+    (fun n => Float.ofBits (UInt64.ofNat n))
+
+def flHex (x : Float) : String :=
+  let n := x.toBits.toNat
+  let digs := (List.range 16).map (fun i => (n / 16 ^ (15 - i)) % 16)
+  String.ofList (digs.map (fun d => if d < 10 then Char.ofNat (d + 48) else Char.ofNat (d + 87)))
+
+def flShow : V Float → String
+  | .flt x => s!"(float {flHex x})"
+  | .err => "err"
+  | .other => "other"
+  | .pair a b => s!"(tuple {flShow a} {flShow b})"
+  | .stuck => "stuck"
+
+def flAdd (a b : Float) : Float := a + b
+def flSub (a b : Float) : Float := a - b
+def flMul (a b : Float) : Float := a * b
+def flDiv (a b : Float) : Float := a / b
+
+def flSite (p : FSite → Bool) : Nat := Generated.FloatSites.sites.findIdx p
+
 def flEngine (f : String) (args : List String) : String :=
+  let T := Generated.FloatSites.sites
+  let checked := flSite (fun s => s.file == "xvalue.rs" && s.fn == "float")
+  let lit := flSite (fun s => s.file == "runtime_scope.rs")
+  let negS := flSite (fun s => s.fn == "add_float_neg")
+  let ev (e : FExpr flDom) : String := flShow (eval flDom T e)
   match f, args with
+  | "sites", [] =>
+    String.intercalate ";" (T.zipIdx.map (fun (s, i) => s!"{i}|{s.file}|{s.line}|{s.fn}|{siteOk s}"))
+  | "op", name :: hs =>
+    match hs.mapM flParse with
+    | none => "bad-op"
+    | some xs =>
+      match name, xs with
+      | "lit", [a] => ev (.ext lit a)
+      | "neg", [a] => ev (.un negS .neg (.ext lit a))
+      | "negneg", [a] => ev (.un negS .neg (.un negS .neg (.ext lit a)))
+      | "add", [a, b] => ev (.bin checked (.fn2 flAdd) (.ext lit a) (.ext lit b))
+      | "sub", [a, b] => ev (.bin checked (.fn2 flSub) (.ext lit a) (.ext lit b))
+      | "mul", [a, b] => ev (.bin checked (.fn2 flMul) (.ext lit a) (.ext lit b))
+      | "div", [a, b] => ev (.bin checked (.fn2 flDiv) (.ext lit a) (.ext lit b))
+      | "pairneg", [a, b] => ev (.pair (.un negS .neg (.ext lit a)) (.bin checked (.fn2 flMul) (.ext lit a) (.ext lit b)))
+      | _, _ => "bad-op"
   | _, _ => "bad-op"
 
 end XrayDriver
